@@ -60,6 +60,26 @@ func (l layout) filesArg() string {
 
 func (l layout) numPieces() int { return (l.total + l.pl - 1) / l.pl }
 
+// dataBytes is the number of bytes that live in real (non-padding) files. With none, verification reads
+// nothing and a read gate cannot hold it.
+func (l layout) dataBytes() int {
+	n := 0
+	for i, ln := range l.lens {
+		if !l.pads[i] {
+			n += ln
+		}
+	}
+	return n
+}
+
+// readGate returns "read", or "open" for a layout whose verification never reads.
+func (l layout) readGate() string {
+	if l.dataBytes() == 0 {
+		return "open"
+	}
+	return "read"
+}
+
 func (l layout) pieceLen(i int) int {
 	if (i+1)*l.pl <= l.total {
 		return l.pl
@@ -471,7 +491,7 @@ func genLifecycle(r *Rng, idx int, tier string, step func(op string) string) {
 				do("waitstop")
 			}
 		case roll < 58:
-			kind := r.Pick2("open", "read", "write")
+			kind := r.Pick2("open", l.readGate(), "write")
 			on := !gates[kind]
 			gates[kind] = on
 			do(fmt.Sprintf("gate kind=%s on=%s", kind, b01(on)))
@@ -479,7 +499,7 @@ func genLifecycle(r *Rng, idx int, tier string, step func(op string) string) {
 			if st == "Stopped" {
 				// files vanish while stopped and the next start is interrupted during allocation / verification
 				do(fmt.Sprintf("mutate file=%s how=delete off=0", r.Pick2("all", fmt.Sprint(r.Intn(len(l.lens))))))
-				kind := r.Pick2("open", "read")
+				kind := r.Pick2("open", l.readGate())
 				do(fmt.Sprintf("gate kind=%s on=1", kind))
 				do("start")
 				do("stop")
@@ -571,13 +591,23 @@ func genLoopMagnet(r *Rng, idx int, tier string, step func(op string) string) {
 	// sometimes the data is already on disk: after the metadata arrives the torrent verifies, and the
 	// verification is held so that peer messages arrive in the Verifying state
 	seeded := r.Chance(35)
-	o := step(fmt.Sprintf("new pl=%d files=%s magnet=1 private=%s cfg.AllowedFastSet=0 cfg.MaxMetadataSize=40000 multi=%s seeded=%s",
-		l.pl, l.filesArg(), b01(private), b01(r.Chance(50)), b01(seeded)))
+	// sometimes the session's piece-count limit is at or just below the torrent's piece count, and sometimes the
+	// torrent is to stop as soon as it has the metadata
+	extra := ""
+	if r.Chance(15) {
+		extra += fmt.Sprintf(" cfg.MaxPieces=%d", r.Pick(l.numPieces()-1, l.numPieces(), 1))
+	}
+	stopMeta := !seeded && r.Chance(12)
+	if stopMeta {
+		extra += " stopaftermeta=1"
+	}
+	o := step(fmt.Sprintf("new pl=%d files=%s magnet=1 private=%s cfg.AllowedFastSet=0 cfg.MaxMetadataSize=40000 multi=%s seeded=%s%s",
+		l.pl, l.filesArg(), b01(private), b01(r.Chance(50)), b01(seeded), extra))
 	if !strings.HasPrefix(o, "ok") {
 		return
 	}
 	if seeded {
-		step(fmt.Sprintf("gate kind=%s on=1", r.Pick2("read", "read", "open")))
+		step(fmt.Sprintf("gate kind=%s on=1", r.Pick2(l.readGate(), l.readGate(), "open")))
 	}
 	isize := atoi(obsKV(o)["isize"])
 	step("start")
@@ -642,6 +672,21 @@ func genLoopMagnet(r *Rng, idx int, tier string, step func(op string) string) {
 				do(fmt.Sprintf("msg p=%d t=have i=%d", p.k, r.Intn(l.numPieces()+2)))
 			default:
 				do(fmt.Sprintf("msg p=%d t=allowedfast i=%d", p.k, r.Intn(l.numPieces()+2)))
+			}
+		}
+		if r.Chance(15) {
+			// illegal order: a metadata request / data / reject before the peer's own extension handshake
+			switch r.Intn(3) {
+			case 0:
+				do(fmt.Sprintf("msg p=%d t=metareq i=%d", p.k, r.Intn(3)))
+			case 1:
+				do(fmt.Sprintf("msg p=%d t=metadata i=%d data=true", p.k, r.Intn(2)))
+			default:
+				do(fmt.Sprintf("msg p=%d t=metareject i=%d", p.k, r.Intn(2)))
+			}
+			if obsKV(last)["peers"] != "" && !strings.Contains(","+obsKV(last)["peers"]+",", fmt.Sprintf(",%d,", p.k)) {
+				p.closed = true
+				return p
 			}
 		}
 		switch kind {
@@ -734,6 +779,12 @@ func genLoopMagnet(r *Rng, idx int, tier string, step func(op string) string) {
 		}
 	}
 	do("obs metaphase=done")
+	if stopMeta && info(last) && obsKV(last)["st"] == "Stopped" {
+		for _, p := range peers {
+			p.closed = true
+		}
+		do("start")
+	}
 	if failAlloc {
 		do("gate kind=failopen on=0")
 		if info(last) && obsKV(last)["st"] == "Stopped" {
